@@ -121,41 +121,50 @@ theorem parseSample_bare (P : Params) {n : Str} (hv : isValidLegacyMetricName n 
     rw [this, show n ++ ' ' :: remText vtok ts ex = (n ++ [' ']) ++ remText vtok ts ex by simp,
       show n.length + 1 = (n ++ [' ']).length by simp]
     exact List.drop_left
-  have hnoLabels : (match nextUnquotedChar (n ++ ' ' :: remText vtok ts ex) (· == '{') with
-      | none => true
-      | some ls => isInfix OMParse.sepHash ((n ++ ' ' :: remText vtok ts ex).take ls)) = true := by
-    cases ex with
+  have hfin : ∀ (hl : Option Nat), nextUnquotedChar (n ++ ' ' :: remText vtok ts ex) (· == '{') = hl →
+      (∀ k, hl = some k → isInfix OMParse.sepHash ((n ++ ' ' :: remText vtok ts ex).take k) = true) →
+      parseSample P (n ++ ' ' :: remText vtok ts ex) = sampleOf P n [] (remText vtok ts ex) := by
+    intro hl hls hinf
+    unfold parseSample sampleOf
+    cases hl with
     | none =>
-      have : nextUnquotedChar (n ++ ' ' :: remText vtok ts none) (· == '{') = none := by
-        rw [nextUnquotedChar_zero]
-        have h := scan_rem_none true ht.v ts ht.ts
-        simp only [↓reduceIte, List.cons_append, List.nil_append] at h
-        show scan lbChs _ false false = none
-        rw [scan_append_of_noHit _ _ _ _ _ hn_lb.1, hn_lb.2, h]; rfl
-      rw [this]
-    | some x =>
-      obtain ⟨L, etok, ets⟩ := x
-      have h := (scan_rem_some true ht.v ts ht.ts L etok ets).2
+      simp only [hls, ↓reduceIte, hend, optIdx, Int.ofNat_eq_natCast, hname, hv, Bool.not_true, Bool.false_eq_true, hrem,
+        bind, Except.bind, pure, Except.pure]
+      cases parseRemainingText P (remText vtok ts ex) with
+      | error e => rfl
+      | ok x => obtain ⟨v, ts, ex⟩ := x; rfl
+    | some k =>
+      simp only [hls, hinf k rfl, ↓reduceIte, hend, optIdx, Int.ofNat_eq_natCast, hname, hv, Bool.not_true, Bool.false_eq_true, hrem,
+        bind, Except.bind, pure, Except.pure]
+      cases parseRemainingText P (remText vtok ts ex) with
+      | error e => rfl
+      | ok x => obtain ⟨v, ts, ex⟩ := x; rfl
+  cases ex with
+  | none =>
+    have : nextUnquotedChar (n ++ ' ' :: remText vtok ts none) (· == '{') = none := by
+      rw [nextUnquotedChar_zero]
+      have h := scan_rem_none true ht.v ts ht.ts
       simp only [↓reduceIte, List.cons_append, List.nil_append] at h
-      have : nextUnquotedChar (n ++ ' ' :: remText vtok ts (some (L, etok, ets))) (· == '{') =
-          some (n ++ ' ' :: (vtok ++ optTok ts) ++ [' ', '#', ' ']).length := by
-        rw [nextUnquotedChar_zero]
-        show scan lbChs _ false false = _
-        rw [scan_append_of_noHit _ _ _ _ _ hn_lb.1, hn_lb.2, h]
-        simp; omega
-      rw [this]
-      simp only []
-      rw [show n ++ ' ' :: remText vtok ts (some (L, etok, ets)) =
-        (n ++ ' ' :: (vtok ++ optTok ts) ++ [' ', '#', ' ']) ++ '{' :: (exBlock L ++ '}' :: ' ' :: (etok ++ optTok ets)) by
-          simp [remText_some]]
-      rw [List.take_left]
-      exact isInfix_suffix OMParse.sepHash _ (by decide)
-  unfold parseSample sampleOf
-  rw [if_pos hnoLabels]
-  simp only [↓reduceIte, hend, optIdx, Int.ofNat_eq_natCast, hname, hv, Bool.not_true, Bool.false_eq_true, hrem,
-    bind, Except.bind, pure, Except.pure]
-  cases parseRemainingText P (remText vtok ts ex) with
-  | error e => rfl
-  | ok x => obtain ⟨v, ts, ex⟩ := x; rfl
+      show scan lbChs _ false false = none
+      rw [scan_append_of_noHit _ _ _ _ _ hn_lb.1, hn_lb.2, h]; rfl
+    exact hfin none this (fun k hk => by cases hk)
+  | some x =>
+    obtain ⟨L, etok, ets⟩ := x
+    have h := (scan_rem_some true ht.v ts ht.ts L etok ets).2
+    simp only [↓reduceIte, List.cons_append, List.nil_append] at h
+    have hls : nextUnquotedChar (n ++ ' ' :: remText vtok ts (some (L, etok, ets))) (· == '{') =
+        some (n ++ ' ' :: (vtok ++ optTok ts) ++ [' ', '#', ' ']).length := by
+      rw [nextUnquotedChar_zero]
+      show scan lbChs _ false false = _
+      rw [scan_append_of_noHit _ _ _ _ _ hn_lb.1, hn_lb.2, h]
+      simp; omega
+    refine hfin _ hls ?_
+    intro k hk
+    cases hk
+    rw [show n ++ ' ' :: remText vtok ts (some (L, etok, ets)) =
+      (n ++ ' ' :: (vtok ++ optTok ts) ++ [' ', '#', ' ']) ++ '{' :: (exBlock L ++ '}' :: ' ' :: (etok ++ optTok ets)) by
+        simp [remText_some]]
+    rw [List.take_left]
+    exact isInfix_suffix OMParse.sepHash _ (by decide)
 
 end PromVerif.Lemmas.OMRt
